@@ -536,6 +536,7 @@ pub fn replay(rep: &mut Report, case: &serde_json::Value) {
         "gcovtext" => "gcovtext",
         "gcovjson" => "gcovjson",
         "gcno" => "gcno",
+        "gcno2m" => "gcno2m",
         _ => "gcda",
     };
     let data = unhex(case["data_hex"].as_str().or(case["input_hex"].as_str()).unwrap_or(""));
